@@ -525,12 +525,27 @@ fn build_mappings(r: &mut StdRng, classes: &[(String, Vec<(String, String)>, Vec
 	let mut kids = Map::new();
 	let mut sorted: Vec<&(String, Vec<(String, String)>, Vec<(String, String)>)> = classes.iter().collect();
 	sorted.sort_by_key(|c| c.0.len());          // outer classes before their inner classes
+	// now and then the target names of some top level classes are source names of others (a rotation: a -> b -> c -> a, or a
+	// shift whose last class gets a fresh name): asking the remapper twice then differs from asking once
+	let mut perm: HashMap<String, String> = HashMap::new();
+	if r.gen_bool(0.25) {
+		let tops: Vec<&String> = sorted.iter().map(|c| &c.0).filter(|n| !n.contains('$') && !n.starts_with('[') && !n.starts_with("java/") && !n.starts_with("ext/") && *n != "module-info").collect();
+		if tops.len() >= 2 {
+			let k = r.gen_range(2..=tops.len().min(4));
+			let rotate = r.gen_bool(0.5);
+			for i in 0..k {
+				if i + 1 < k { perm.insert(tops[i].clone(), tops[i + 1].clone()); }
+				else if rotate { perm.insert(tops[i].clone(), tops[0].clone()); }
+				else { perm.insert(tops[i].clone(), format!("{}Shifted", tops[i])); }
+			}
+		}
+	}
 	for (name, fields, methods) in sorted.into_iter().map(|c| (&c.0, &c.1, &c.2)) {
 		if kids.contains_key(&format!("c {name}")) || name.starts_with('[') || name == "module-info" { continue; }
 		let outer_t = name.rfind('$').and_then(|p| targets.get(&name[..p])).cloned();
 		// java/lang/Object keeps its name (the meaning of an <init> frame depends on it); its members may be renamed
-		let renamed = name != "java/lang/Object" && r.gen_bool(p_class);
-		let target = if renamed { g.class_target(r, name, outer_t.as_deref()) } else if r.gen_bool(0.7) { name.clone() } else { String::new() };
+		let renamed = perm.contains_key(name) || (name != "java/lang/Object" && r.gen_bool(p_class));
+		let target = if let Some(t) = perm.get(name) { t.clone() } else if renamed { g.class_target(r, name, outer_t.as_deref()) } else if r.gen_bool(0.7) { name.clone() } else { String::new() };
 		if renamed { targets.insert(name.clone(), target.clone()); }
 		let mut mk = Map::new();
 		for (n, d) in fields { if r.gen_bool(p_member) { mk.insert(format!("f {n} {d}"), mnode("f", n, &g.fresh("f_"), d, Map::new())); } }
